@@ -244,13 +244,13 @@ pub fn run(cfg: &PoolCfg, cases: &[Vec<u8>]) -> Vec<Outcome> {
                     for i in start..end {
                         let t0 = Instant::now();
                         let mut o = run_one(&mut w, cfg, &cases[i], cfg.timeout);
-                        if t0.elapsed() > Duration::from_secs(5) && std::env::var_os("VCHECK_QUIET").is_none() {
+                        if t0.elapsed() > Duration::from_millis(std::env::var("VCHECK_SLOW_MS").ok().and_then(|s| s.parse().ok()).unwrap_or(5000)) && std::env::var_os("VCHECK_QUIET").is_none() {
                             eprintln!(
                                 "  [pool {}] slow case ({:.1}s, {}): {}",
                                 cfg.kind,
                                 t0.elapsed().as_secs_f64(),
                                 if o.is_crash() { o.describe() } else { "ok".into() },
-                                super::report::truncate(&String::from_utf8_lossy(&cases[i]), 300)
+                                super::report::truncate(&String::from_utf8_lossy(&cases[i]), 3000)
                             );
                         }
                         if matches!(o, Outcome::Timeout) {
@@ -335,6 +335,8 @@ pub fn worker_main(mut handler: Handler) -> ! {
         libc::close(devnull);
         (pin, pout)
     };
+    // die with the explorer (a killed explorer must not leave spinning workers behind)
+    unsafe { libc::prctl(libc::PR_SET_PDEATHSIG, libc::SIGKILL) };
     if let Ok(cap) = std::env::var("VCHECK_MEM_CAP") {
         if let Ok(n) = cap.parse::<u64>() {
             let lim = libc::rlimit { rlim_cur: n, rlim_max: n };
